@@ -15,6 +15,7 @@ func init() {
 	Register("H_C03_If", H_C03_If)
 	Register("H_C03_Accept", H_C03_Accept)
 	Register("H_C03_Gate", H_C03_Gate)
+	Register("H_C03_Literal", H_C03_Literal)
 }
 
 // H_C03_Keyword: the token that starts at offset "at" has id "tok", spans "n" bytes
@@ -370,4 +371,68 @@ func H_C03_Gate() {
 
 func parseAt(in []byte, v *version.Version) *ParseOut {
 	return ParseWith(in, v.Major, v.Minor, true)
+}
+
+// H_C03_Literal: the node kind a numeric literal becomes. pick = "expr": the expression
+// of the first statement; "dim": the offset of the first interpolated array access of
+// the first statement's string.
+func H_C03_Literal() {
+	in, _ := BuildInput()
+	major, minor := PickVersion()
+	ObserveBytes("in", in)
+	a := ParseWith(in, major, minor, true)
+	what := ParamStr("what")
+	if len(a.Errs) != 0 || IsNilVertex(a.Root) {
+		Fail("C03:valid-literal-accepted", what)
+		return
+	}
+	e := firstExpr(a.Root)
+	if ParamStr("pick") == "dim" {
+		var parts []ast.Vertex
+		switch s := e.(type) {
+		case *ast.ScalarEncapsed:
+			parts = s.Parts
+		case *ast.ScalarHeredoc:
+			parts = s.Parts
+		case *ast.ExprShellExec:
+			parts = s.Parts
+		}
+		e = nil
+		for _, p := range parts {
+			if d, ok := p.(*ast.ExprArrayDimFetch); ok {
+				e = d.Dim
+				break
+			}
+		}
+	}
+	got := "nothing"
+	if !IsNilVertex(e) {
+		got = kindName(KindOf(e))
+		if m, ok := e.(*ast.ExprUnaryMinus); ok && !IsNilVertex(m.Expr) {
+			got = "ExprUnaryMinus(" + kindName(KindOf(m.Expr)) + ")"
+		}
+	}
+	if got != ParamStr("want") {
+		Fail("C03:literal-kind", what+": "+got+" instead of "+ParamStr("want"))
+		return
+	}
+	// the value is the source text
+	var val []byte
+	switch x := e.(type) {
+	case *ast.ScalarLnumber:
+		val = x.Value
+	case *ast.ScalarDnumber:
+		val = x.Value
+	case *ast.ScalarString:
+		val = x.Value
+	}
+	if val != nil {
+		lit := []byte(ParamStr("text"))
+		if len(val) != len(lit) {
+			Fail("C03:literal-text-verbatim", what)
+			return
+		}
+		Assert("C03:literal-text-verbatim|"+what, BytesEq(val, lit))
+	}
+	Cover("checked")
 }
